@@ -139,7 +139,7 @@ def xdec_events(args):
         ev = {"op": "xdec", "impl": impl, "src": "spec", "ty": ty, "val": val, "b": list(b), "res": "ok", "obs": val, "case": {"ty": ty, "tag": tag}}
         try:
             if impl == "bp":
-                ev["obs"] = dyn.obs_bp(schema, w["bp"][ty]().parse(bytes(b)), ty)
+                ev["obs"] = dyn.obs_decoded(schema, w["bp"][ty]().parse(bytes(b)), ty)
             else:
                 m = w["ref"][ty]()
                 m.ParseFromString(bytes(b))
@@ -174,7 +174,7 @@ def cross_events(case):
     ev = {"op": "xdec", "impl": "bp", "src": "ref", "dir": "ref->bp", "ty": ty, "val": val, "b": list(b_ref), "res": "ok", "obs": val,
           "case": {"ty": ty, "tag": case.get("tag", "")}}
     try:
-        ev["obs"] = dyn.obs_bp(schema, C[ty]().parse(b_ref), ty)
+        ev["obs"] = dyn.obs_decoded(schema, C[ty]().parse(b_ref), ty)
     except Exception as ex:
         ev["res"] = type(ex).__name__ + ":" + str(ex)[:60]
     out.append(ev)
